@@ -26,6 +26,11 @@
 //        c<v>,<m>     condition_variable::wait(lock on m)                t<v>,<m>,<d>  wait_for(d ns); logs t<fiber>:<1 timeout|0>
 //        n<v> N<v>    notify_one / notify_all
 //        q<q> Q<q>,<d> raw FiberQueue::Wait(NoTimeoutTag) / Wait(d ns) (logs t<fiber>:<1|0>)     k<q> K<q>  NotifyOne / NotifyAll
+//        r<m>         a FRESH yaclib_std::random_device: v = rd(); logs v<fiber>:<v>; then v % m yields
+//        R<m>         the fiber's own long-lived device (constructed at its first use in this fiber): v = rd(); logs it;
+//                     then lock (v % m); fetch_add; unlock (v % m)
+//        G            the driver's long-lived device: rd.reset(); v = rd(); logs it; appends v % 3 atomic operations
+//                     (the stream of a device is mt19937_64(GetSeed()): a function of the seed alone)
 //        f<slot>( ... )   yaclib_std::thread in handle <slot> running the nested list     j<slot> join     d<slot> detach
 //        p            phase boundary (driver only, must be a quiescent point): records (random count, injector state)
 //  * real clients (--client pool|strand|timed|coro|mix), each a sequence of phases separated by quiescent points.
@@ -37,6 +42,8 @@
 #include <new>
 
 #include "vrt_all.hpp"
+
+#include <yaclib_std/random>
 
 // The client programs must themselves be deterministic functions of the schedule.  Lock-free pushes that CAS on
 // POINTERS (Strand::Submit, coroutine Mutex) succeed or retry depending on whether malloc handed out a freed node's
@@ -243,9 +250,12 @@ struct Parser {
         case 'y':
         case 'p':
         case 'e':
+        case 'G':
           break;
         case 's':
         case 'S':
+        case 'r':
+        case 'R':
         case 'l':
         case 'u':
         case 'n':
@@ -304,6 +314,7 @@ struct World {
   std::deque<yaclib_std::thread> slots;
   yaclib_std::atomic<int> shared{0};
   yaclib_std::chrono::steady_clock::time_point epoch{};
+  std::optional<yaclib_std::random::random_device> device;  // the driver's long-lived device (op G)
   int phase = 0;
   World() : mtx(8), cvs(8), qs(8), slots(64) {
   }
@@ -311,8 +322,47 @@ struct World {
 
 void Exec(World& w, const std::vector<Op>& ops, bool driver);
 
-void ExecOp(World& w, const Op& op, bool driver) {
+using FiberDevice = std::optional<yaclib_std::random::random_device>;
+
+void LogVal(std::uint64_t v) {
+  rec.Tok("v" + std::to_string(Me()) + ":" + std::to_string(v));
+}
+
+void ExecOp(World& w, const Op& op, bool driver, FiberDevice& mine) {
   switch (op.kind) {
+    case 'r': {
+      yaclib_std::random::random_device rd;
+      std::uint64_t v = rd();
+      LogVal(v);
+      for (std::uint64_t k = v % op.a; k != 0; --k) {
+        yaclib_std::this_thread::yield();
+      }
+      break;
+    }
+    case 'R': {
+      if (!mine) {
+        mine.emplace();
+      }
+      std::uint64_t v = (*mine)();
+      LogVal(v);
+      auto& m = w.mtx[v % op.a];
+      m.lock();
+      w.shared.fetch_add(1, std::memory_order_relaxed);
+      m.unlock();
+      break;
+    }
+    case 'G': {
+      if (!w.device) {
+        w.device.emplace();
+      }
+      w.device->reset();
+      std::uint64_t v = (*w.device)();
+      LogVal(v);
+      for (std::uint64_t k = v % 3; k != 0; --k) {
+        w.shared.fetch_add(1, std::memory_order_relaxed);
+      }
+      break;
+    }
     case 'a':
       w.shared.fetch_add(1, std::memory_order_relaxed);
       break;
@@ -415,6 +465,7 @@ void ExecOp(World& w, const Op& op, bool driver) {
 }
 
 void Exec(World& w, const std::vector<Op>& ops, bool driver) {
+  FiberDevice mine;
   for (const auto& op : ops) {
     if (op.kind == 'p') {
       if (driver) {
@@ -426,7 +477,7 @@ void Exec(World& w, const std::vector<Op>& ops, bool driver) {
     if (driver && w.phase < cfg.from) {
       continue;  // restored run: the prefix is not executed
     }
-    ExecOp(w, op, driver);
+    ExecOp(w, op, driver, mine);
   }
 }
 
@@ -586,6 +637,40 @@ void PhaseUntil(int n) {
   Ev("until" + std::to_string(counter.load(std::memory_order_relaxed)));
 }
 
+// randomised stress workload (the shape of a typical test): every worker seeds a private PRNG from
+// yaclib_std::random_device and lets it decide how often it yields and what it appends to the shared log; one
+// long-lived device of the driver is reset() and read at the end
+void PhaseRand(int n) {
+  static yaclib_std::random::random_device* sLongLived = nullptr;  // lives across phases and runs
+  yaclib_std::mutex m;
+  yaclib_std::atomic<int> ops{0};
+  std::string log;
+  std::vector<yaclib_std::thread> ts;
+  for (int i = 0; i < n; ++i) {
+    ts.emplace_back([&, i] {
+      yaclib_std::random::random_device rd;
+      std::mt19937_64 rng{rd()};
+      for (int s = 0; s < 3; ++s) {
+        for (auto y = rng() % 3; y != 0; --y) {
+          ops.fetch_add(1, std::memory_order_relaxed);
+          yaclib_std::this_thread::yield();
+        }
+        std::lock_guard lock{m};
+        log += static_cast<char>('A' + i);
+        log += std::to_string(rng() % 10);
+      }
+    });
+  }
+  for (auto& t : ts) {
+    t.join();
+  }
+  if (sLongLived == nullptr) {
+    sLongLived = new yaclib_std::random::random_device();
+  }
+  sLongLived->reset();
+  Ev("rand:" + log + ":" + std::to_string((*sLongLived)() % 1000));
+}
+
 void RunClient(const std::string& name, int size) {
   std::vector<std::function<void()>> phases;
   auto pool = [size] {
@@ -603,6 +688,9 @@ void RunClient(const std::string& name, int size) {
   auto until = [size] {
     PhaseUntil(3 + size);
   };
+  auto rnd = [size] {
+    PhaseRand(2 + size);
+  };
   if (name == "pool") {
     phases = {pool, pool, pool};
   } else if (name == "strand") {
@@ -613,8 +701,10 @@ void RunClient(const std::string& name, int size) {
     phases = {coro, coro};
   } else if (name == "until") {
     phases = {until, until, until};
+  } else if (name == "rand") {
+    phases = {rnd, pool, rnd};
   } else if (name == "mix") {
-    phases = {pool, until, strand, timed, coro, until};
+    phases = {pool, until, strand, rnd, timed, coro, until, rnd};
   } else {
     std::fprintf(stderr, "unknown client %s\n", name.c_str());
     std::exit(2);
